@@ -28,7 +28,10 @@ def gen_decl(rng, idx):
     for li, k in enumerate(keys):
         # declaration 0 of the grid has one label with ten values, most of them renamed (generated lookup tables for long value lists)
         many = grid and idx == 0 and li == 0
-        nv = 10 if many else rng.randint(1, 4)
+        # declarations 1 and 4 of the grid: a label with four values whose first two names share one value (values declared AFTER the
+        # duplicate must still be addressed by their own names / strings)
+        dup_first = grid and idx in (1, 4) and li == 0
+        nv = 10 if many else (4 if dup_first else rng.randint(1, 4))
         fields = rng.sample(FIELDS, nv)
         vals = []
         used = set()
@@ -41,7 +44,9 @@ def gen_decl(rng, idx):
             used.add(v)
             vals.append((f, v))
         # aliases: two field names declared with the SAME label value address the same child
-        if nv >= 2 and rng.random() < 0.25:
+        if dup_first:
+            vals[1] = (vals[1][0], vals[0][1])
+        elif nv >= 2 and rng.random() < 0.25:
             a, b = rng.sample(range(nv), 2)
             vals[b] = (vals[b][0], vals[a][1])
         as_enum = rng.random() < 0.45
